@@ -5,7 +5,7 @@ CONSTANTS
   MaxVnodes = 2
   NDcs = 2
   NRacks = 2
-  KsIdx = {1, 3, 4, 6, 7, 8}
+  KsIdx = {1, 4, 9}
   TailLen = 0
   Variants = TRUE
 INVARIANTS CheckAndEmit
